@@ -501,6 +501,47 @@ def real_uuid_deser(s):
     return {"ok": r.int}
 
 
+def complex_part(x):
+    """sign + the token `repr` writes for the magnitude (a trailing `.0` dropped, as str(complex) does)"""
+    neg = math.copysign(1.0, x) < 0 and not math.isnan(x)
+    a = abs(x)
+    if math.isnan(a):
+        return {"neg": False, "t": "nan"}
+    if math.isinf(a):
+        return {"neg": neg, "t": "inf"}
+    r = repr(a)
+    if r.endswith(".0"):
+        r = r[:-2]
+    mm = re.fullmatch(r"(\d+)(?:\.(\d+))?(?:e([-+])(\d+))?", r)
+    if mm is None:
+        raise MachineryError("unexpected float repr %r" % r)
+    return {"neg": neg, "t": "dec", "ip": mm.group(1), "fp": mm.group(2) or "", "ex": None if mm.group(3) is None else [mm.group(3) == "-", mm.group(4)]}
+
+
+def real_complex_str(z):
+    try:
+        return {"s": handler(complex).serializer(z)}
+    except Exception as ex:  # noqa: BLE001
+        return {"err": err_name(ex)}
+
+
+def real_complex_parse(s):
+    try:
+        z = handler(complex).deserializer(s)
+    except Exception as ex:  # noqa: BLE001
+        return {"err": err_name(ex)}
+    if type(z) is not complex:
+        return {"err": "Other:result-" + type(z).__name__}
+    return {"ok": [repr(z.real), repr(z.imag)]}
+
+
+COMPLEX_ALPHA = list("0123456789.eE+-jJ() infa") + ["inf", "nan", "e+", "j)", "("]
+COMPLEX_TEXTS = ["", "j", "+j", "-j", "1+j", "1-j", "1", "1.", ".5", ".", "1e5", "1e", "1e+", "1E-3j", "(1+2j)", "( 1+2j )", "(1+2j", "1+2j)", "1 + 2j", "1+ 2j", "1+2 j",
+                 "1+2j ", " 1+2j", "(1+2j) ", "((1+2j))", "()", "(j)", "inf", "infj", "infinity", "infinityj", "-Infinity+NaNj", "nan+nanj", "+nan", "infi", "infinit", "1+2",
+                 "1+2i", "1j+2", "1j2", "++1", "+-1", "1++2j", "1+-2j", "1e5e5", "0x10", "1.5.5", "1..5", "e5", "J", "1J", "(1J)", "\t(1+2j)\n", "(\t1+2j\n)", "1+2jj", "1+2j(",
+                 "(1+2j))", "1.e5j", ".e5", "-.5-.5j", "- 1", "1+", "1-", "+", "-", "(", ")", "(1)", "(1j)", "1e400", "1e400j", "(-0+0j)", "-0j", "(nan-infj)"]
+
+
 B64_ALPHA = list("ABab01+/=- \n_.") + ["==", "="]
 B64_TEXTS = ["", "=", "==", "A", "AA", "AAA", "AAAA", "A=", "AA=", "AA==", "AAA=", "AA=A", "AA=A=", "A===", "AA===", "=AAA", "A=AAA", "AA=AA", "AAA=A", "AAAA=",
              "AAAAA", "AAAAAA==", "AAAAAA=", "AA\n==", "AA = =", "AA==AAAA", "AAA=AAAA", "A A A A", "AA.=.=", "1234", "true", "null", "+123", "1e10", "0x1F", "aGk=", "-_-_"]
@@ -852,7 +893,8 @@ def run(ctx: Ctx):
         "texts are ASCII in the Lean model (non-ASCII digits and blanks are checked against the independent predicate only); int() digit limit (4300) not reached",
         "float(int)/float(str) are CPython's correctly rounded conversions, modelled by roundDouble and validated by correspondence; the sign of zero is not represented",
         "timedelta(**floats) is modelled on exact rationals: agrees with CPython for texts with <= 6 fraction digits and fields < 2^53 (the generators stay inside)",
-        "base64 (a2b_base64 non-strict) and UUID(text) are modelled on ASCII texts; complex() and pathlib constructors are not modelled: their round trips are evaluated on the real code only",
+        "base64 (a2b_base64 non-strict), UUID(text) and complex(text) are modelled on ASCII texts (complex: without underscores, parts as repr tokens under float(repr(x)) == x); "
+        "pathlib constructors are not modelled: their round trips are evaluated on the real code only",
         "C20_text_safe/_plain_* speak about the YAML resolvers (engine Scalar, tables regenerated from the live Loader/Dumper); the emitter's analyze_scalar can only add quotes; "
         "the command line does not pass through the YAML loader for registered types",
         "None / 'null' handling of the parser (accepted when the default is None) is outside C20",
@@ -1150,6 +1192,35 @@ def _run(ctx: Ctx, corpus, boost, tmpdir):
             uuid_texts.append(e["s"])
             for _ in range(2):
                 uuid_texts.append(mutate_text(ctx.rng, e["s"], UUID_ALPHA))
+    inf = float("inf")
+    complexes = [0j, 1 + 0j, 1j, -1 - 1j, complex(0.1, -0.2), complex(1e22, 1e-22), complex(inf, 0), complex(0, -inf), complex(-0.0, -0.0), complex(1, -0.0),
+                 complex(-0.0, 2), complex(float("nan"), 1), complex(1, float("nan")), complex(5e-324, 1.7976931348623157e308), complex(1e16, 0), complex(0, 1e16),
+                 complex(123456789.125, -2.5)]
+    for _ in range(ctx.budget(80, 1500) * boost):
+        complexes.append(complex(ctx.rng.choice([0.0, -0.0, ctx.rng.uniform(-10, 10), ctx.rng.randint(-5, 5), ctx.rng.uniform(-1e20, 1e20), ctx.rng.uniform(-1e-9, 1e-9)]),
+                                 ctx.rng.choice([0.0, -0.0, ctx.rng.uniform(-10, 10), ctx.rng.randint(-5, 5), ctx.rng.uniform(-1e-20, 1e-20), 1e300])))
+    complex_texts = list(COMPLEX_TEXTS)
+    for z in complexes:
+        e = real_complex_str(z)
+        lines.append({"op": "complex_str", "re": complex_part(z.real), "im": complex_part(z.imag)})
+        expect.append((len(lines) - 1, "complex_str", (repr(z), e)))
+        ctx.count()
+        if "s" in e:
+            complex_texts.append(e["s"])
+            for _ in range(2):
+                complex_texts.append(mutate_text(ctx.rng, e["s"], COMPLEX_ALPHA))
+            # on the real code: the round trip (nan parts compare by repr)
+            back = real_complex_parse(e["s"])
+            if back != {"ok": [repr(z.real), repr(z.imag)]}:
+                ctx.violation("complex %r does not survive str -> complex: %r" % (z, back), {"kind": "codec-rt", "type": "complex", "value": [z.real.hex(), z.imag.hex()]})
+    for t in [x for x in complex_texts if x.isascii() and "_" not in x]:
+        real = real_complex_parse(t)
+        lines.append({"op": "complex_parse", "s": t})
+        expect.append((len(lines) - 1, "complex_parse", (t, real)))
+        ctx.count()
+        ctx.hist("complex_text", "parses" if "ok" in real else "rejected")
+        if "ok" in real:
+            ctx.nontrivial(("complex_text", t))
     for c in corpus:
         if c.get("kind") == "b64_text":
             b64_texts.append(c["s"])
@@ -1177,7 +1248,8 @@ def _run(ctx: Ctx, corpus, boost, tmpdir):
     from jsonargparse._loaders_dumpers import dumpers, loaders
 
     plain_texts = {"range": [real_range_ser(r).get("s") for r in ranges[:300]], "timedelta": [real_td_str(t).get("s") for t in tds[:400]],
-                   "uuid": [real_uuid_str(u).get("s") for u in uuids[:300]], "bytes": [real_b64_enc(b).get("s") for b in byte_strings[:300]]}
+                   "uuid": [real_uuid_str(u).get("s") for u in uuids[:300]], "bytes": [real_b64_enc(b).get("s") for b in byte_strings[:300]],
+                   "complex": [real_complex_str(z).get("s") for z in complexes[:200]]}
     plain_texts["timedelta"] += ["1:00:00", "0:00:00.500000", "23:59:59", "0:59:59", "10:00:00.000001"]
     plain_texts["bytes"] += ["1234", "true", "null", "1e10", "+123", "0x1F", "MTIz"]
     n_text_viol = 0
@@ -1199,7 +1271,7 @@ def _run(ctx: Ctx, corpus, boost, tmpdir):
                 back = loaders["yaml"](dumpers["yaml"]({"x": t}))["x"]
             except Exception as ex:  # noqa: BLE001
                 back = ex
-            must_plain_str = (kind == "range" or kind == "uuid" or (kind == "timedelta" and " day" in t) or (kind == "bytes" and t.endswith("=")))
+            must_plain_str = (kind in ("range", "uuid", "complex") or (kind == "timedelta" and " day" in t) or (kind == "bytes" and t.endswith("=")))
             desc = None
             if not (isinstance(back, str) and back == t):
                 desc = "dumped as a YAML value it is read back as %r" % (back,)
@@ -1232,6 +1304,19 @@ def _run(ctx: Ctx, corpus, boost, tmpdir):
                         if disagreements <= 4:
                             ctx.tie_break("correspondence E8 (%s: typing.py vs Lean model) disagrees" % kind,
                                           json.dumps({"case": repr(head), "value": repr(v), "real": a, "model": b}, ensure_ascii=True)[:1500])
+            elif kind == "complex_parse":
+                head, real = payload
+                mod = got
+                if "ok" in got:
+                    try:
+                        mod = {"ok": [repr(float(x)) for x in got["ok"]]}
+                    except ValueError:
+                        mod = {"bad-token": got["ok"]}
+                if canon(real) != canon(mod):
+                    disagreements += 1
+                    if disagreements <= 4:
+                        ctx.tie_break("correspondence E8 (complex_parse: complex() vs Lean model) disagrees",
+                                      json.dumps({"input": head, "real": real, "model": got}, ensure_ascii=True)[:600])
             elif kind == "resolve":
                 text, tag = payload
                 names = ["str", "null", "bool", "int", "float"]
@@ -1476,6 +1561,12 @@ def replay_case(b, quiet=False):
             back = real_b64_dec(e["s"]) if "s" in e else e
             say("bytes", b["value"], "->", e, "->", back)
             return back != {"ok": b["value"]}
+        if b["type"] == "complex":
+            z = complex(float.fromhex(b["value"][0]), float.fromhex(b["value"][1]))
+            e = real_complex_str(z)
+            back = real_complex_parse(e["s"]) if "s" in e else e
+            say("complex", z, "->", e, "->", back)
+            return back != {"ok": [repr(z.real), repr(z.imag)]}
         if b["type"] == "UUID":
             u = int(b["value"])
             e = real_uuid_str(u)
@@ -1513,7 +1604,7 @@ def replay_case(b, quiet=False):
         back = loaders["yaml"](dumpers["yaml"]({"x": t}))["x"]
         plain = loaders["yaml"](t)
         say("text %r: dump/load -> %r; read plain -> %r" % (t, back, plain))
-        must = b["type"] in ("range", "uuid") or (b["type"] == "timedelta" and " day" in t) or (b["type"] == "bytes" and t.endswith("="))
+        must = b["type"] in ("range", "uuid", "complex") or (b["type"] == "timedelta" and " day" in t) or (b["type"] == "bytes" and t.endswith("="))
         return not (isinstance(back, str) and back == t) or (must and not isinstance(plain, str))
     if kind == "b64-pair":
         return real_b64_dec(b["s"], bytearray) != real_b64_dec(b["s"])
